@@ -1,3 +1,4 @@
+import DaeVerif.C20.Gen
 /-!
 # C20 — executable model of dae's reload/suspend serialisation (cmd/run.go, cmd/reload_manager.go)
 
@@ -90,8 +91,9 @@ return when the old generation has no session (left), when the next reload cance
 retirement, or when the budget timer fires — a timer armed with a duration ≤ 0 fires at once.
 `retirementDone` closes right after (`ControlPlane.Close` has its own 5 s bound, not modelled). -/
 
-/-- `reloadTotalSwitchBudget` (10 s). -/
-def totalSwitchBudget : Nat := 10000000000
+/-- `reloadTotalSwitchBudget`, regenerated from cmd/run.go on every run (Gen.lean): the theorems hold
+for whatever value the source has. -/
+def totalSwitchBudget : Nat := Gen.totalSwitchBudgetNs
 
 /-- `remainingReloadRetirementBudget(startedAt, budget)`; `age = time.Since(startedAt)`. -/
 def remBudget (zeroStart : Bool) (age : Int) (budget : Int) : Int :=
@@ -144,7 +146,35 @@ def retireAborted (sc : RetScenario) : List Bool :=
 
 /-- `reloadFailureQuiesce` (component/outbound/dialer: Timeout + 10 s): after the suppression
 counter has returned to 0 node-failure reports stay muted for this long. -/
-def quiesceNs : Nat := 20000000000
+def quiesceNs : Nat := Gen.quiesceNs
+
+/-! ## The serve-ready wait has a clock too
+
+`waitReloadReadyOrSignal(timeout)` returns when the Serve goroutine reports (ready or failed), when a
+termination signal arrives, or when its timer fires — the timer is armed only for `timeout > 0`
+(both call sites pass `reloadReadyTimeout`; pinned by the extractor, positivity checked on every
+run).  SIGUSR1/SIGUSR2/SIGHUP are consumed in between and change nothing about when it returns. -/
+
+def optMinO : Option Nat → Option Nat → Option Nat
+  | none, b => b
+  | a, none => a
+  | some a, some b => some (min a b)
+
+/-- when the wait returns (`none` = never). -/
+def waitDoneAt (timeout : Int) (reportAt termAt : Option Nat) : Option Nat :=
+  optMinO (if 0 < timeout then some timeout.toNat else none) (optMinO reportAt termAt)
+
+inductive WaitRes | ready | failed | signal | timeout
+  deriving DecidableEq, Repr
+
+/-- the results it may return (several when events coincide). -/
+def waitResults (timeout : Int) (reportAt : Option Nat) (reportOk : Bool) (termAt : Option Nat) : List WaitRes :=
+  match waitDoneAt timeout reportAt termAt with
+  | none => []
+  | some t =>
+    (if reportAt = some t then [if reportOk then .ready else .failed] else []) ++
+    (if termAt = some t then [.signal] else []) ++
+    (if 0 < timeout ∧ timeout.toNat = t then [.timeout] else [])
 
 structure St where
   pending : Bool := false
